@@ -191,7 +191,10 @@ type ConverterGenFunc func(Value) (*Func, error)
 func ConverterGen(fs ...ConverterGenFunc) Arg {
 	return func(a *argBuilder) error {
 		for _, f := range fs {
-			a.convGens = append(a.convGens, f)
+			// A nil generator is ignored, like a nil converter.
+			if f != nil {
+				a.convGens = append(a.convGens, f)
+			}
 		}
 		return nil
 	}
@@ -221,7 +224,10 @@ func FilterOutput(f FilterFunc) Arg {
 // arguments. If this isn't specified, the default hclog.L() logger is used.
 func Logger(l hclog.Logger) Arg {
 	return func(a *argBuilder) error {
-		a.logger = l
+		// A nil logger is ignored like other nil values: the default stays.
+		if l != nil {
+			a.logger = l
+		}
 		return nil
 	}
 }
